@@ -56,6 +56,16 @@ pub fn render_db(c: &Cmd, db_name: &str) -> String {
 
 pub fn raw_lines() -> Vec<&'static str> {
     vec![
+        // one command that carries a line break (possible over HTTP and WebSocket) followed by text that would be a
+        // replication command if it stood on a line of its own
+        "election active x\nreplicate d $$secret -1 attacker-value",
+        "election active x\nreplicate-remove d $$hidden",
+        "set a 1\nreplicate d $$secret -1 attacker-value",
+        "get a\nrp 5 replicate d $$secret -1 attacker-value",
+        "leave x\nreplicate d $$secret -1 attacker-value",
+        // (a key that carries the line break: `set-safe <key> <version> <value>` is replicated as `replicate d <key> <version> <value>`)
+        "set-safe a\nrp 5 replicate d $$secret -1 attacker-value",
+        "set a\nreplicate-remove d $$hidden",
         "unwatch-all",
         "arbiter",
         "snapshot false",
@@ -391,7 +401,10 @@ pub fn run_cluster_case(ctx: &Ctx, case: &Case) -> Outcome {
     }
     let secure = |c: &crate::cluster::Cluster, i: usize| -> BTreeMap<String, (String, i32, bool)> { c.nodes[i].node.as_ref().unwrap().dump_db(DB).unwrap_or_default().into_iter().filter(|(k, _)| k.starts_with("$$")).collect() };
     if out.fail.is_none() {
-        let sid = c.open_session(1);
+        // (the attacker is connected to the secondary, or, for half of the generated cases, to the primary: what it sends
+        // there is replicated to the secondary)
+        let attacker_node = if case.cmds.len() % 2 == 0 && case.cmds.len() > 1 { 0 } else { 1 };
+        let sid = c.open_session(attacker_node);
         let login = if case.session == "user" { format!("use-db {} bob bobtok", DB) } else { format!("use-db {} {}", DB, DBTOK) };
         c.session_send(sid, vec![login]);
         c.run(&mut |_| 0, 400_000);
@@ -412,7 +425,7 @@ pub fn run_cluster_case(ctx: &Ctx, case: &Case) -> Outcome {
                     let changed: Vec<String> = now.iter().filter(|(k, v)| before[node].get(*k) != Some(v)).map(|(k, _)| k.clone()).chain(before[node].keys().filter(|k| !now.contains_key(*k)).cloned()).collect();
                     let word = line.split(' ').next().unwrap_or("").to_string();
                     let word = if word == "rp" { format!("rp+{}", line.split(' ').nth(2).unwrap_or("")) } else { word };
-                    out.fail = Some((format!("C08|integrity-from-a-secondary|{}", word), format!("step {}: the non-admin ({}) session on the SECONDARY sent {:?} (reply {:?}): secure keys {:?} changed on n{} ({})", i, case.session, line, reply, changed, node, if node == 0 { "the primary" } else { "the secondary" })));
+                    out.fail = Some((format!("C08|integrity-from-a-secondary|{}", word), format!("step {}: the non-admin ({}) session on n{} sent {:?} (reply {:?}): secure keys {:?} changed on n{} ({})", i, case.session, attacker_node, line, reply, changed, node, if node == 0 { "the primary" } else { "the secondary" })));
                     break;
                 }
             }
